@@ -522,10 +522,19 @@ func (val Node) AsNumber(ctx *Context) (json.Number, bool) {
 	return val.NonstrAsNumber(ctx)
 }
 
+// numRef returns the number text, copied out of the caller's input when CopyString is set
+// (json.Number is a string: it must not alias the input then, exactly like decoded strings)
+func numRef(ctx *Context, s string) json.Number {
+	if ctx.Options()&(1<<_F_copy_string) == 0 {
+		return json.Number(s)
+	}
+	return json.Number(string(rt.Str2Mem(s)))
+}
+
 func (val Node) NonstrAsNumber(ctx *Context) (json.Number, bool) {
 	// deal with raw number
 	if val.IsRawNumber() {
-		return val.Number(ctx), true
+		return numRef(ctx, val.Raw(ctx)), true
 	}
 
 	// deal with parse number
@@ -538,7 +547,7 @@ func (val Node) NonstrAsNumber(ctx *Context) (json.Number, bool) {
 	if !ok {
 		return "", false
 	}
-	return json.Number(ctx.Parser.Json[start:end]), true
+	return numRef(ctx, ctx.Parser.Json[start:end]), true
 }
 
 func (val Node) AsRaw(ctx *Context) string {
